@@ -59,8 +59,9 @@ def run_case(case, eng, res):
                         reads = run.clock_reads[1:] or run.clock_reads
                         sh, sm = run.extra["start"]
                         eh, em = run.extra["end"]
-                        extra_ok = b_and(TA.local_target_ok(te, a["start_t"], reads, sh, sm),
-                                         TA.local_target_ok(te, a["end_t"], reads, eh, em))
+                        extra_ok = TA.local_target_ok(te, a["end_t"], reads, eh, em)
+                        if "free_start" not in case:
+                            extra_ok = b_and(TA.local_target_ok(te, a["start_t"], reads, sh, sm), extra_ok)
                     else:
                         a["start_t"] = a["end_t"] = 0
                         extra_ok = False
@@ -119,6 +120,8 @@ def main(tier):
         if op == "create_schedule":
             zs = timeenv.ZONES if tier == "thorough" else ["UTC", "Asia/Jerusalem", "Australia/Lord_Howe", "America/St_Johns", "Pacific/Kiritimati"]
             cases += [{"op": op, "zone": z} for z in zs]
+            cases += [{"op": op, "zone": "UTC", "free_start": n} for n in range(0, 6 if tier == "quick" else 9)]
+            cases += [{"op": op, "zone": "UTC", "days_seq": n} for n in (1, 2, 3)]
         else:
             cases += A.op_cases(op, tier)
     results = H.run_cases("harness.C02", "run_case", cases, timeout_ms=60000 if tier == "quick" else 600000)
